@@ -17,8 +17,9 @@
 
   PARTIAL (stated): norm bounds on `ν` (needs the concrete ring `Z[X]/(X^N+1)` and C02's centred-lift
   bound `|ρ| ≤ P/2`); the lazy-reduction schedule (`QiOverflowMargin`) is invisible at the canonical
-  level and is covered by the bit-exact tie, not by a theorem; ring-degree switch, ring swap and
-  ring packing are not modelled.
+  level and is covered by the bit-exact tie, not by a theorem; the ring-degree switch is modelled (`embedR`/`projectR`, tied bit-exactly) but the facts
+  that these two maps are a ring hom / a linear retraction are hypotheses of `degree_*_phase`;
+  ring swap (standard ↔ conjugate-invariant) and ring packing are not modelled.
 -/
 import Lattigo.Proofs.Gadget
 import Lattigo.Proofs.GadgetDigits
@@ -179,6 +180,26 @@ theorem hoisted_eq_plain {α : Type} [CommRing α] (decomp : List α) (evk : Lis
 
 example : ∀ r ∈ [[((1 : ℤ), (2 : ℤ))], [(3, 4)]], r.length = 1 := by decide
 
+/-- **degree switch, small → large** (`ApplyEvaluationKey` with `N_in < N_out`): `ι : Y ↦ X^{N/n}` a ring
+    homomorphism, key from `ι(s_small)` to `s_large`. -/
+theorem degree_up_phase {A β : Type} [CommRing A] [CommRing β] (ι : β →+* A) (ksOf : A → A × A)
+    (ct : β × β) (sS : β) (sL ν : A)
+    (hks : phase (ksOf (ι ct.2)) sL = ι ct.2 * ι sS + ν) :
+    phase (applyEvaluationKeyUp ι ksOf ct) sL = ι (phase ct sS) + ν :=
+  applyEvaluationKeyUp_phase ι ksOf ct sS sL ν hks
+
+/-- **degree switch, large → small**: `ρ` additive and `R_small`-linear. -/
+theorem degree_down_phase {A β : Type} [CommRing A] [CommRing β] (ι : β → A) (ρ : A →+ β)
+    (hρ : ∀ x s, ρ (x * ι s) = ρ x * s) (ks ct : A × A) (sL : A) (sS : β) (ν : A)
+    (hks : phase ks (ι sS) = ct.2 * sL + ν) :
+    phase (applyEvaluationKeyDown ρ ks ct) sS = ρ (phase ct sL) + ρ ν :=
+  applyEvaluationKeyDown_phase ι ρ hρ ks ct sL sS ν hks
+
+/-- non-vacuity of `hρ`: `A = ℤ × ℤ ⊇ β = ℤ` (diagonal), `ρ` = first projection -/
+example : ∀ (x : ℤ × ℤ) (s : ℤ),
+    (AddMonoidHom.fst ℤ ℤ) (x * (fun t : ℤ => ((t, t) : ℤ × ℤ)) s) = (AddMonoidHom.fst ℤ ℤ) x * s := by
+  intro x s; rfl
+
 /-! ## 3. The gadget identity and the digits -/
 
 /-- **gadget_identity** for the code's RNS row layout (see `Proofs/GadgetIdentity.lean`) -/
@@ -303,3 +324,5 @@ open Lattigo.KS.C04 in
 #print axioms Lattigo.KS.C04.noP_gadget_identity_counterexample
 #print axioms Lattigo.KS.C04.bitDecomp_gadget_identity_counterexample
 #print axioms Lattigo.KS.C04.hoisted_eq_plain_R
+#print axioms Lattigo.KS.C04.degree_up_phase
+#print axioms Lattigo.KS.C04.degree_down_phase
